@@ -36,6 +36,7 @@ OBLIGATIONS = [
     "SkVerif.C19.registry_covers_when_object_reused",
     "SkVerif.C19.resume_registry_incomplete_witness",
     "SkVerif.C19.ram_key_collision_witness",
+    "SkVerif.C19.ram_collision_breaks_honesty_witness",
     "SkVerif.C19.mkWork_keys_injective",
     "SkVerif.C19.validate_ok_names_nodup",
 ]
